@@ -43,11 +43,16 @@ impl WalRecuperator {
     /// Run all the undo.
     pub(crate) fn run_undo(&mut self, analysis: &AnalysisResult) -> RuntimeResult<()> {
         for redo_transaction in analysis.needs_undo.iter() {
-            // Reapply all the operations of this transaction
-            for lsn in analysis.try_iter_lsn(redo_transaction).ok_or(IoError::new(
-                ErrorKind::NotSeekable,
-                "transaction not found in th write ahead analysis",
-            ))? {
+            // Undo the operations of this transaction newest first: every record puts back what was
+            // there just before it, so only that order ends at the state before the first one.
+            for lsn in analysis
+                .try_iter_lsn(redo_transaction)
+                .ok_or(IoError::new(
+                    ErrorKind::NotSeekable,
+                    "transaction not found in th write ahead analysis",
+                ))?
+                .rev()
+            {
                 // A loser may have written to a table whose creation is itself only in the log
                 // (not yet redone, never reached the data file): there is nothing to undo then.
                 let no_such_table = |r: RuntimeResult<()>| match r {
